@@ -322,11 +322,11 @@ def run(tier: str, only=None) -> core.Result:
     for name, cfgs in configs_for(tier).items():
         if only and name not in only:
             continue
-        out = explorer.explore(RUN, cfgs)
+        out = explorer.explore(RUN, cfgs, fidelity=True)
         sched.absorb(res, name, RUN, out, cfgs)
     scfgs = [{"k": k, "ids": ids} for k in ((2, 3) if tier == "quick" else (2, 3, 4)) for ids in ("explicit", "auto")]
     if not only or "stdio" in only:
-        out = explorer.explore(RUN_STDIO, scfgs)
+        out = explorer.explore(RUN_STDIO, scfgs, fidelity=True)
         sched.absorb(res, "stdio-carrier", RUN_STDIO, out, scfgs)
     res.coverage["exhaustive"] = True
     res.coverage["rule"] = (
